@@ -46,7 +46,10 @@ func createErrorResponse(openapi *openapi3.T, route definitions.RouteMetadata, e
 
 func createContentWithSchemaRef(openapi *openapi3.T, validationString string, interfaceType string) openapi3.Content {
 	schemaRef := InterfaceToSchemaRef(openapi, interfaceType)
-	BuildSchemaValidation(schemaRef, validationString, interfaceType)
+	// A reference shares the schema object of the referenced component - validation rules of one usage site must not be written into it
+	if schemaRef.Ref == "" {
+		BuildSchemaValidation(schemaRef, validationString, interfaceType)
+	}
 	return openapi3.NewContentWithJSONSchemaRef(schemaRef)
 }
 
@@ -132,7 +135,10 @@ func handleRouteParamDeprecation(routeParam definitions.FuncParam, specParam *op
 
 func createRouteParam(openapi *openapi3.T, param definitions.FuncParam) *openapi3.ParameterRef {
 	schemaRef := InterfaceToSchemaRef(openapi, param.TypeMeta.Name)
-	BuildSchemaValidation(schemaRef, param.Validator, param.TypeMeta.Name)
+	// A reference shares the schema object of the referenced component - validation rules of one usage site must not be written into it
+	if schemaRef.Ref == "" {
+		BuildSchemaValidation(schemaRef, param.Validator, param.TypeMeta.Name)
+	}
 	specParam := &openapi3.ParameterRef{
 		Value: &openapi3.Parameter{
 			Name:        param.NameInSchema,
@@ -178,10 +184,12 @@ func createRequestFormParam(openapi *openapi3.T, param definitions.FuncParam, op
 	formSchema := operation.RequestBody.Value.Content[string(definitions.ContentTypeFormURLEncoded)].Schema
 	// Create a new schema for the form parameter
 	propertySchemaRef := InterfaceToSchemaRef(openapi, param.TypeMeta.Name)
-	// Add the validation to the schema
-	BuildSchemaValidation(propertySchemaRef, param.Validator, param.TypeMeta.Name)
+	// Add the validation to the schema (references share the component's schema object and are left untouched)
+	if propertySchemaRef.Ref == "" {
+		BuildSchemaValidation(propertySchemaRef, param.Validator, param.TypeMeta.Name)
+	}
 	// Set the description on the property schema itself
-	if propertySchemaRef.Value != nil {
+	if propertySchemaRef.Value != nil && propertySchemaRef.Ref == "" {
 		propertySchemaRef.Value.Description = param.Description
 	}
 	// Add the form parameter to the schema
